@@ -14,9 +14,17 @@ def jobs(tier):
                   timeout=900, require_tags={'end': 1, 'accept': 1, 'has-segments': 1}))
     q.append(dict(name='kernel-pair-key', harness='k_kernels.c', entry='main_kernel', defines=dict(KERNEL=1), timeout=600,
                   env=dict(LLSYM_Z3_TIMEOUT_MS='5000', LLSYM_CVC5_TIMEOUT_MS='120000'), require_tags={'end': 1, 'pair': 1, 'oob': 1}))
+    q.append(dict(name='kernel-avl-4keys', harness='k_kernels.c', entry='main_kernel', defines=dict(KERNEL=4, NK=4), timeout=600,
+                  require_tags={'end': 1, 'dup': 1, 'full': 1}))
+    q.append(dict(name='kernel-avl-6distinct', harness='k_kernels.c', entry='main_kernel', defines=dict(KERNEL=4, NK=6, DISTINCT=1, NOPROBE=1),
+                  timeout=600, require_tags={'end': 720, 'height3': 1, 'full': 1}))
     if tier == 'quick':
         return q
     return q + [
+        dict(name='kernel-avl-5keys', harness='k_kernels.c', entry='main_kernel', defines=dict(KERNEL=4, NK=5), timeout=1800,
+             require_tags={'end': 1, 'dup': 1, 'full': 1}),
+        dict(name='kernel-avl-7distinct', harness='k_kernels.c', entry='main_kernel', defines=dict(KERNEL=4, NK=7, DISTINCT=1, NOPROBE=1),
+             timeout=3000, allow_incomplete=True, require_tags={'end': 1, 'height3': 1, 'full': 1}),
         dict(name='n4e3-pairs', harness=H, entry='main_c19', defines=dict(NN=4, NE=3, TP_HI=0, SP_HI=0, NSEL=2), timeout=3000,
              allow_incomplete=True, require_tags={'end': 1, 'accept': 1, 'has-segments': 1}),
         dict(name='n3e2-triples', harness=H, entry='main_c19', defines=dict(NN=3, NE=2, TP_HI=1, SP_HI=1, NSEL=3), timeout=3000,
@@ -25,11 +33,11 @@ def jobs(tier):
 
 
 BOUNDS = {
-    'quick': 'pair-key kernel: num_nodes, a, b free 32-bit values (every table size below 2^31); every valid 3-node 2-edge tree sequence class (edge coordinates symbolic; adjacent edges with equal parent/child, '
+    'quick': 'pair-key kernel: num_nodes, a, b free 32-bit values (every table size below 2^31); AVL kernel: 4 inserts of free 64-bit keys (duplicates included) plus a free probe key, and 6 inserts of distinct free keys (every insertion order, all four rotation cases); every valid 3-node 2-edge tree sequence class (edge coordinates symbolic; adjacent edges with equal parent/child, '
              'gaps, unary nodes arise) x every ordered pair of distinct nodes (samples or not, ancestor/descendant pairs '
              'included), within and between, min_span in {0,1,2}, max_time in {0.5,1.5,2.5,inf}; 3-node 3-edge classes (unsquashed adjacent edges plus a sibling) without filters; one fixed 4-node 4-edge 5-tree '
              'sequence x every ordered triple of nodes; store_pairs+store_segments',
-    'thorough': 'plus 4-node 3-edge classes and triples on 3-node classes (time-boxed)',
+    'thorough': 'plus AVL kernel with 5 free keys and 7 distinct keys (time-boxed), 4-node 3-edge classes and triples on 3-node classes (time-boxed)',
 }
 OUTSIDE = ['max_time exactly equal to a node time (documentation says "more recent than", the code keeps equality)',
            'store options other than pairs+segments', 'Python result classes']
